@@ -294,6 +294,7 @@ OR2 == {<<None, None>>, <<Some(<<1, 0>>), None>>, <<None, Some(<<1, 1>>)>>}
 OR1 == {<<None, None>>}
 ValById(s) == {<<"a", "b", "c", "d">>[s + 1]}        \* provenance visible: store s sets its own letter
 ValTwo(s) == IF s = 0 THEN {"a"} ELSE {"b", "c"}
+ValNest(s) == IF s = 2 THEN {"b"} ELSE {"a"}      \* base and wrapper 1 share a value: fewer base contents
 BaseA == {"a"}
 
 AView == avars
